@@ -179,6 +179,10 @@ class Interp(object):
             return self.new_cell(st, PyListCell([self.make(args[1], "%s_%d" % (name, k), st) for k in range(n)]))
         if head == "Tuple":
             return Tup([self.make(a, "%s_%d" % (name, k), st) for k, a in enumerate(args)])
+        if head == "KwDict":
+            # the **kwargs dictionary of a call: a new dict with exactly these keyword names (KwDict[level:Int,...])
+            from .calls import kw_fields
+            return self.new_cell(st, PyDictCell({k: self.make(t, "%s.%s" % (name, k), st) for k, t in kw_fields(ty).items()}))
         if head == "Iter":
             sort = self.lst_sort(args[0])
             t = reg.new(name + "$all", sort)
@@ -276,6 +280,10 @@ class Interp(object):
     def store(self, st, ref, newterm):
         """write a new term at a (possibly nested) list / Val position"""
         cell = st.heap[ref.cid]
+        if isinstance(cell, ValCell) and not ref.path and ref.cid in st.notes.get("iterating", ()) \
+                and not getattr(self, "_iter_store_ok", False):
+            # only the VALUE of an existing key may be replaced while `for key in d` runs (see dicts.for_dict)
+            raise Unsupported("structural change of a dictionary while a loop iterates it")
         if isinstance(cell, LstCell):
             st.heap[ref.cid] = LstCell(self._store_path(cell.term, ref.path, newterm))
         elif isinstance(cell, ValCell):
@@ -456,6 +464,17 @@ class Interp(object):
         if dictlike(a) and dictlike(b):
             from .dicts import dterm
             return EQ(dterm(self, st, a), dterm(self, st, b))
+        if dictlike(a) and isinstance(b, (Str, Bool, Num)) or dictlike(b) and isinstance(a, (Str, Bool, Num)) \
+                or dictlike(a) and isinstance(b, Opaque) and b.sort == "Key" or dictlike(b) and isinstance(a, Opaque) and a.sort == "Key":
+            # an item of a context compared with a scalar: scalars are embedded into Val (dicts.scalar)
+            from .dicts import dterm
+            return EQ(dterm(self, st, a), dterm(self, st, b))
+        if isinstance(a, Opaque) and a.sort == "V" and (isinstance(b, Str) or isinstance(b, Opaque) and b.sort in ("Key", "Val")
+                                                         or dictlike(b)):
+            return self.v_eq(st, a, b)
+        if isinstance(b, Opaque) and b.sort == "V" and (isinstance(a, Str) or isinstance(a, Opaque) and a.sort in ("Key", "Val")
+                                                         or dictlike(a)):
+            return self.v_eq(st, b, a)
         if isinstance(a, Ref) and isinstance(b, Ref):
             ca, cb = st.heap[a.cid], st.heap[b.cid]
             if isinstance(ca, ValCell) and isinstance(cb, ValCell):
@@ -467,6 +486,13 @@ class Interp(object):
         if isinstance(b, Ref) and isinstance(st.heap[b.cid], ValCell) and isinstance(a, Opaque) and a.sort == "Val":
             return EQ(a.t, self.deref(st, b))
         raise Unsupported("== between %r and %r" % (a, b))
+
+    def v_eq(self, st, v, other):
+        """a flow value (sort V) compared with a string or a context item: through the embedding of V into Val"""
+        from .dicts import dterm
+        self.reg.need_val()
+        f = self.reg.ufun("v_as_val", ["V"], "Val")
+        return EQ(T("(%s %s)" % (f, v.t.s), "Val"), dterm(self, st, other))
 
     def is_seq(self, st, v):
         if isinstance(v, (View, Tup)):
@@ -483,6 +509,10 @@ class Interp(object):
         return "list"
 
     def py_is(self, st, a, b):
+        if a is b:
+            return TRUE
+        if isinstance(a, Tup) or isinstance(b, Tup):
+            return FALSE          # a tuple built by a display is a new object: identical only to itself
         if isinstance(a, NoneV) or isinstance(b, NoneV):
             return TRUE if (isinstance(a, NoneV) and isinstance(b, NoneV)) else FALSE
         if isinstance(a, Sentinel) or isinstance(b, Sentinel):
@@ -590,7 +620,10 @@ class Interp(object):
         out = []
         if not e.keys and self.c is not None and self.c.dict_model == "Val":
             self.reg.need_val()
-            return [(st, self.new_cell(st, ValCell(T("(D emptymap)", "Val"))))]
+            r = self.new_cell(st, ValCell(T("(D emptymap)", "Val")))
+            # a new empty dictionary shares nothing with anything: trivially a deep copy (stores into it are tracked)
+            st.notes["deep_copies"] = set(st.notes.get("deep_copies", ())) | {r.cid}
+            return [(st, r)]
         for s, vals in self.ev_many(list(e.keys) + list(e.values), st):
             n = len(e.keys)
             keys, values = vals[:n], vals[n:]
@@ -855,6 +888,8 @@ class Interp(object):
             return [(s, self.world.module_attr(v.name, attr, self))]
         if isinstance(v, Ref):
             cell = s.heap[v.cid]
+            if isinstance(cell, ObjCell) and cell.cls == "$file":
+                return [(s, Fun("method", recv=v, name=attr))]
             if isinstance(cell, ObjCell):
                 if attr in cell.fields:
                     return [(s, cell.fields[attr])]
